@@ -5,6 +5,23 @@ mod model;
 mod props;
 mod real;
 
+/// Code that needs the AVX2 hook module (only in builds whose curve25519-dalek has it).
+#[macro_export]
+macro_rules! with_avx2 {
+    ($b:block) => {
+        #[cfg(mc_avx2)]
+        $b
+    };
+}
+/// Code that needs the IFMA hook module.
+#[macro_export]
+macro_rules! with_ifma {
+    ($b:block) => {
+        #[cfg(mc_ifma)]
+        $b
+    };
+}
+
 use ev::{Ctx, Tier};
 use serde_json::json;
 
@@ -123,6 +140,9 @@ fn main() {
         "C07" => props::c07::run(&ctx),
         "C08" => props::c08::run(&ctx),
         "C09" => props::c09::run(&ctx),
+        "C12" => props::c12::run(&ctx),
+        "C16" => props::c16::run(&ctx),
+        "C13" => props::c13::run(&ctx),
         _ => {
             eprintln!("unknown property {}", prop);
             std::process::exit(2);
